@@ -35,6 +35,14 @@ FAULTS = [
     ("undefined-const-in-if", ".if 1 {\nzq_c := undefined_symbol_zq\n}"),
     ("undefined-block-in-if", ".if 1 {\n{{undefined_block_zq}}\n} else {\nnop\n}"),
     ("undefined-macro-in-loop", ".for zq_i := 0, 2 {\nundefined_macro_zq(zq_i)\n}"),
+    # failures that surface as RuntimeError / struct.error / KeyError inside the passes
+    ("branch-to-ram", "bra 0x7e0010"),
+    ("branch-from-ram", "@=0x7e0100\nlzq3:\nbne lzq3"),
+    ("unmapped-operand-branch", "beq 0x700000"),
+    ("value-too-wide", "lda.l 0x1234567"),
+    ("negative-long", ".macro zq_m(v) {\nlda.l v\n}\nzq_m(-1)"),
+    ("code-as-operand", ".macro zq_c(blk) {\nlda blk\n}\nzq_c({\nnop\n})"),
+    ("text-without-table", ".text 'abc'"),
 ]
 
 
